@@ -41,15 +41,17 @@ TRUSTED_BASE = [
 ]
 
 
-def _worker(conn, modname, idx, tier, seed, replay_dir, mode):
+def _worker(conn, modname, idx, tier, seed, replay_dir, mode, prefix=None, first=True):
     try:
         mod = importlib.import_module(modname)
         insts = mod.instances(tier)
         inst = insts[idx]
         if mode == 'bounded':
             rep = run_bounded(inst, tier, seed, replay_dir)
+        elif mode == 'probe':
+            rep = {'key': inst.key, 'prefixes': I.probe_prefixes(inst), 'error': None}
         else:
-            rep = I.run_instance(inst, tier=tier, seed=seed, replay_dir=replay_dir)
+            rep = I.run_instance(inst, tier=tier, seed=seed, replay_dir=replay_dir, prefix=prefix, first_shard=first)
     except BaseException as e:  # noqa
         rep = {'key': '%s[%d]' % (modname, idx), 'error': ''.join(traceback.format_exception(type(e), e, e.__traceback__))[-3000:]}
     try:
@@ -174,17 +176,25 @@ def main(argv=None):
 
 def run_pool(modname, jobs, tier, seed, replay_dir, njobs, verbose):
     ctx = mp.get_context('fork')
-    pending = list(jobs)
+    # job = (idx, inst, mode, prefix, first)
+    pending = []
+    for idx, inst in jobs:
+        mode = 'bounded' if getattr(inst, 'mode', 'proof') == 'bounded' else 'proof'
+        if mode == 'proof' and getattr(inst, 'shard_depth', 0) > 0:
+            pending.append((idx, inst, 'probe', None, True))
+        else:
+            pending.append((idx, inst, mode, None, True))
     running = {}
     reports = []
+    probing = {}
     while pending or running:
         while pending and len(running) < njobs:
-            idx, inst = pending.pop(0)
+            idx, inst, mode, prefix, first = pending.pop(0)
             pc, cc = ctx.Pipe(duplex=False)
-            mode = 'bounded' if getattr(inst, 'mode', 'proof') == 'bounded' else 'proof'
-            p = ctx.Process(target=_worker, args=(cc, modname, idx, tier, seed, replay_dir, mode))
+            p = ctx.Process(target=_worker, args=(cc, modname, idx, tier, seed, replay_dir, mode, prefix, first))
             p.start()
             cc.close()
+            probing[p.pid] = (idx, mode)
             limit = getattr(inst, 'wall', None) or (inst.timeout * 40 + 120)
             if tier == 'thorough':
                 limit *= 4
@@ -197,7 +207,12 @@ def run_pool(modname, jobs, tier, seed, replay_dir, njobs, verbose):
                 except EOFError:
                     rep = {'key': inst.key, 'error': 'worker died without a report (exit %s)' % p.exitcode}
                 p.join(5)
-                reports.append((inst, rep))
+                if probing.get(pid, (None, None))[1] == 'probe' and not rep.get('error'):
+                    pf = rep.get('prefixes') or [[]]
+                    for j, pre in enumerate(pf):
+                        pending.insert(0, (probing[pid][0], inst, 'proof', pre, j == 0))
+                else:
+                    reports.append((inst, rep))
                 done.append(pid)
                 if verbose:
                     print('  done %-90s %.1fs' % (inst.key[:90], time.time() - started), flush=True)
@@ -288,9 +303,9 @@ def finish(prop, tier, seed, meta, insts, reports, t0, args):
             defs_checked += rep.get('vacuity', {}).get('defs_checked', 0)
             for d in rep.get('vacuity', {}).get('defs_bad', []):
                 defs_bad.append((inst.key, d))
-            if rep.get('vacuity', {}).get('valid_samples', 1) == 0 and not rep.get('timeout'):
+            if rep.get('vacuity', {}).get('valid_samples', 1) == 0 and not rep.get('timeout'):  # None: not sampled (shard)
                 vac_bad.append(inst.key + ' (no concrete input satisfies the precondition)')
-            if not rep.get('timeout') and not rep.get('undecided') and rep.get('paths', 0) == 0:
+            if not rep.get('timeout') and not rep.get('undecided') and rep.get('paths', 0) == 0 and rep.get('shard') is None:
                 vac_bad.append(inst.key + ' (no feasible path)')
             if rep.get('sample_obligation') and len(samples) < 6:
                 samples.append({'obligation_case': rep['sample_obligation']})
